@@ -1,3 +1,4 @@
+import DigModel.Proofs.DecoHide
 import DigModel.Props.C01
 import DigModel.Props.C02
 import DigModel.Proofs.Parse
@@ -22,7 +23,13 @@ import DigModel.Proofs.Just2Api
     `Just2`): in every reachable container a decorated single value (a decorated group) stored in scope `S` under
     key `k` is exactly what a successful execution of a decorator registered in `S` returned in the result that
     declares `k` — so with `C12_consumer` what a consumer below receives is that decorator's output.
-  "Receives the next outer decorator's output" at history level is covered by the correspondence check.
+  * `C12_running_decorator_is_invisible` (full strength, any container, any configuration): while decorator `d` is
+    running (on the stack — that is when its own arguments are built), every resolver computation — building a list of
+    parameters, a single value, a value group, calling a constructor or another decorator — gives the same result and
+    the same executions, and changes the container in the same way, as in the container whose decorator tables do not
+    mention `d` at all (`tablesWithout d`: what every table answers with the entries for `d` taken out).  So what a
+    decorator receives for the key it decorates is exactly what a consumer in its scope would receive had the
+    decorator never been registered: the next outer decorator's output, otherwise the provided value (`commd_engine`).
 -/
 namespace Dig.C12
 
@@ -119,6 +126,42 @@ theorem C12_decorated_group_is_decorator_output (p : Program) (S : Nat) (k : Key
           Event.exit (.deco d) ret.f ret.x .ok ∈ (runProgram p).1.hist) :=
   (just2_program p).dgroups S k v h
 
+
+/-- **a running decorator is invisible to the resolution of its own arguments** -/
+theorem C12_running_decorator_is_invisible (ctx : Ctx) (fuel d : Nat) (st : St) (h : (st.deco d).state = .onStack) :
+    -- the container without `d`: same container, decorator tables without the entries for `d`
+    (∀ j k, aget (tablesWithout d st j) k =
+      if j < st.scopes.length then
+        (match aget (st.scope j).decorators k with | some d' => if d' = d then none else some d' | none => none) else none) ∧
+    (∀ ps c, buildList ctx fuel ps c (dset (tablesWithout d st) st) =
+      ((buildList ctx fuel ps c st).1, dset (tablesWithout d st) (buildList ctx fuel ps c st).2)) ∧
+    (∀ k opt c, buildSingle ctx fuel k opt c (dset (tablesWithout d st) st) =
+      ((buildSingle ctx fuel k opt c st).1, dset (tablesWithout d st) (buildSingle ctx fuel k opt c st).2)) ∧
+    (∀ k soft c, buildGroup ctx fuel k soft c (dset (tablesWithout d st) st) =
+      ((buildGroup ctx fuel k soft c st).1, dset (tablesWithout d st) (buildGroup ctx fuel k soft c st).2)) := by
+  have hh := hid_tablesWithout d st h
+  have he := commd_engine d (tablesWithout d st) ctx fuel
+  refine ⟨fun j k => ?_, fun ps c => (he.2.2.2.2.2 ps c st hh).1, fun k opt c => (he.2.2.1 k opt c st hh).1,
+    fun k soft c => (he.2.2.2.1 k soft c st hh).1⟩
+  rw [hh.tables j k]
+  cases aget (st.scope j).decorators k <;> rfl
+
+/-- the arguments of a decorator are built while it is on the stack (`callDeco`), i.e. in the situation of the theorem above -/
+theorem C12_arguments_built_while_running (ctx : Ctx) (fuel d s : Nat) (st : St) (h : (st.deco d).state ≠ .called) :
+    callDeco ctx (fuel + 1) d s st =
+      EM.finally_
+        (EM.bind (shallowCheck s (st.deco d).params) fun _ =>
+         EM.bind (EM.wrapErr (buildList ctx fuel (st.deco d).params (st.deco d).s) .argsFailed) fun args =>
+         decoTail ctx d (st.deco d) args)
+        (fun st => st.modDeco d fun x => if x.state == .called then x else { x with state := .ready })
+        (st.modDeco d fun x => { x with state := .onStack }) := by
+  simp only [callDeco]
+  have : ((st.deco d).state == DecoState.called) = false := by
+    cases hst : (st.deco d).state <;> simp_all
+  simp only [this, Bool.false_eq_true, if_false]
+
+#print axioms C12_running_decorator_is_invisible
+#print axioms C12_arguments_built_while_running
 #print axioms C12_consumer
 #print axioms C12_decorated_value_is_decorator_output
 #print axioms C12_decorated_group_is_decorator_output
